@@ -872,9 +872,17 @@ func (c *Cursor) Forward(ctx context.Context) error {
 		if err != nil {
 			return fmt.Errorf("load: %w", err)
 		}
+		// if the descent to the smallest entry of that subtree fails, the cursor
+		// stays where it was, so that the caller can try again
+		depth := len(c.path)
 		pe.linkIndex++
 		c.path = append(c.path, pathEntry{node: node})
-		return c.Min(ctx)
+		err = c.Min(ctx)
+		if err != nil {
+			c.path = c.path[:depth]
+			c.path[depth-1].linkIndex--
+		}
+		return err
 	} else {
 		if pe.linkIndex+1 < len(node.Key) {
 			pe.linkIndex++
@@ -905,8 +913,15 @@ func (c *Cursor) Backward(ctx context.Context) error {
 		if err != nil {
 			return fmt.Errorf("load: %w", err)
 		}
+		// if the descent to the largest entry of that subtree fails, the cursor
+		// stays where it was, so that the caller can try again
+		depth := len(c.path)
 		c.path = append(c.path, pathEntry{node: node})
-		return c.Max(ctx)
+		err = c.Max(ctx)
+		if err != nil {
+			c.path = c.path[:depth]
+		}
+		return err
 	} else {
 		if pe.linkIndex > 0 {
 			pe.linkIndex--
